@@ -104,7 +104,7 @@ SPEC = {
     '_round_decimal': [NUM + [True, BLANK, 'x'], [-1, 0, 2, 30], ['ROUND_HALF_UP', 'ROUND_UP', 'ROUND_DOWN', 'ROUND_HALF_EVEN']],
     '_search': [TXT, TXT, [None, 0, 1, 2, 3, 7, -1]],
     '_today': [],
-    '_value': [TXT + ['1e3', '+2', '007', '1 234,56', '12:30:15', '01-02-2020', '2/13/2020', '%', '1.2.3', '--1', '0x10', '1_000', 'nan', 'inf']],
+    '_value': [TXT + ['1e3', '+2', '007', '1 234,56', '12:30:15', '01-02-2020', '2/13/2020', '%', '1.2.3', '--1', '0x10', '1_000', 'nan', 'inf', ' 12% ', ' 12:30 ', '1,5 ', ' 01/02/2020 ', '\t7\n']],
     '_cell_preprocessor': [['_0_0_0', '_9_9_9', 'nope']], 'exec_function_in': [['_0_0_0', '_9_9_9', 'nope']],
     # workbook-specific accessors: filled by the generated __init__, compared in run_subclass
     'get_titles': 'skip', 'get_sheets_size': 'skip',
